@@ -90,7 +90,7 @@ pub fn build(case: &Value) -> Built {
         e.push((8, XEntry::InUse { off: o, gen: 0 }));
     }
     let enc_entry = if direct { h.dict() } else { "8 0 R".to_string() };
-    let extra = format!("/Root 1 0 R /Encrypt {} /ID [{} {}]", enc_entry, hexs(ID0), hexs(ID0));
+    let extra = format!("/Root 1 0 R /Encrypt {} /ID [{} {}]", enc_entry, hexs(ID0), hexs(&ID0.iter().rev().copied().collect::<Vec<u8>>()));
     let size = e.iter().map(|x| x.0).max().unwrap() + 2;
     if use_xref_stream { d.xref_stream(size - 1, &e, size, [1, 3, 2], &extra, None, Split::Min, Filter::Flate); }
     else { d.xref_table(&e, size, &extra, None, Split::Min); }
@@ -226,7 +226,7 @@ fn kdf_case(rep: &mut Report, case: &Value) {
     let o = d.obj(9, 0, format!("<< /S {} >>", hexs(&h.encrypt(9, 0, b"baseline"))).as_bytes()); e.push((9, XEntry::InUse { off: o, gen: 0 }));
     let o = d.stream(3, 0, "/T 1", &h.encrypt(3, 0, b"stream plaintext"), None, false); e.push((3, XEntry::InUse { off: o, gen: 0 }));
     let o = d.obj(8, 0, h.dict().as_bytes()); e.push((8, XEntry::InUse { off: o, gen: 0 }));
-    d.xref_table(&e, 10, &format!("/Root 1 0 R /Encrypt 8 0 R /ID [{} {}]", hexs(ID0), hexs(ID0)), None, Split::Min);
+    d.xref_table(&e, 10, &format!("/Root 1 0 R /Encrypt 8 0 R /ID [{} {}]", hexs(ID0), hexs(&ID0.iter().rev().copied().collect::<Vec<u8>>())), None, Split::Min);
     let class = format!("kdf:{}:{}", role, pattern.join("-"));
     let detail = |what: &str, obs: Value| json!({"case": case, "password": String::from_utf8_lossy(&pw), "what": what, "observed": obs});
     for (who, p) in [("found", pw.clone()), ("other", if role.starts_with("user") { owner.clone() } else { user.clone() })] {
